@@ -22,7 +22,7 @@ static long long frozenRef(const Circuit &state, const std::vector<CellOrientati
 }
 
 static void optCase(Rng &rng, CaseResult &r, unsigned mask) {
-  std::string profile = rng.pick(std::vector<std::string>{"general", "rowhigh-any", "nets", "obstruction", "polarity", "multirow", "turned", "crowded"});
+  std::string profile = rng.pick(std::vector<std::string>{"general", "rowhigh-any", "nets", "obstruction", "polarity", "multirow", "turned", "crowded", "big"});
   GenOpts o = makeProfile(rng, profile);
   o.utilHi = 0.8;
   o.farInit = false;
